@@ -3,8 +3,8 @@ NOTES = ("All checks are bounded exhaustive explorations of the real implementat
          "finite input-space products (E3), a cooperative scheduler with preemption bounding for the key store (E4) and a "
          "process-level twin/restart driver (E5). Exit codes: 0 held / only known findings, 1 VIOLATION, 2 harness or build error.")
 ENGINES = [
-    {"name": "E1 world", "path": "engine/world", "serves_properties": ["C01","C02","C03","C04","C05","C06","C11","C12","C13"], "kind_free_text": "real app.App under a deterministic driver; BaseApp.VerifFork via build overlay"},
-    {"name": "E2 explore", "path": "engine/explore", "serves_properties": ["C01","C02","C03","C04","C05","C06","C11","C12","C13"], "kind_free_text": "explicit-state depth/deviation-bounded DFS with canonical store hashing, 16 workers, sequential-replay confirmation"},
+    {"name": "E1 world", "path": "engine/world", "serves_properties": ["C01","C02","C03","C04","C05","C06","C07","C08","C11","C12","C13","C15"], "kind_free_text": "real app.App under a deterministic driver; BaseApp.VerifFork via build overlay"},
+    {"name": "E2 explore", "path": "engine/explore", "serves_properties": ["C01","C02","C03","C04","C05","C06","C07","C08","C11","C12","C13","C15"], "kind_free_text": "explicit-state depth/deviation-bounded DFS with canonical store hashing, 16 workers, sequential-replay confirmation"},
 ]
 NOT_CLAIMED = {}
 ENGINES.append({"name": "E3 enum", "path": "checks/msgdom.go", "serves_properties": ["C14","C16","C17","C18"], "kind_free_text": "bounded-exhaustive input products (full Cartesian product or every combination of <= k non-default classes), minimal failing set reporting"})
@@ -53,3 +53,13 @@ claim("C17", EX, "exhaustive shape products for messages, queries and key-store 
 claim("C14", EX, "exhaustive enumeration of messages over per-field {empty,v1,v2} domains; all ordered pairs decided by grouping on sign bytes; swap deliveries through the real ante handler", "DESIGN.md §3 C14",
       "Every message of the 14 types over a per-field domain {empty where allowed, v1, v2} that passes ValidateBasic; for DIRECT, DIRECT_AUX and LEGACY_AMINO_JSON the sign bytes are grouped (decides all ordered pairs); one swap delivery (signature for m1 on a tx carrying m2) per ordered pair of types and per colliding class against the real chain; sign bytes recomputed in-process and in a child process.",
       "Single-signature transactions; the three sign modes the app's TxConfig enables. Known findings F12/F13 (legacy amino JSON collisions) are listed in known_findings.json and reported as KNOWN-FINDING.", "E3+E1")
+
+claim("C15", EX, "exhaustive enumeration of 1..3-message transactions x fee x signer arrangement on forks of the real deliver state; full bank balance/supply comparison", "DESIGN.md §3 C15",
+      "In two base states every transaction of 1..3 messages drawn from {succeeding, failing} x {aol, did, pnft} x fee in {0, 1000umed, 1000umed+5uxyz} x arrangement in {single signer, add-record with named fee payer (signers [F,W]), two signers}: every bank balance and the total supply are compared before/after (only -fee at the payer, +fee at the fee collector); a failed transaction leaves aol/did/pnft stores byte-identical.",
+      "Explicit AuthInfo.Fee.payer/granter overrides are left out; zero min gas prices.", "E1")
+claim("C07", MC, "explicit-state DFS over deposit histories; real EndBlock executed on a fork in every distinct state; balance/supply arithmetic + crisis invariants", "DESIGN.md §3 C07",
+      "All deposit histories up to the completed bound (plain sends incl. dust/huge/second denom, multi-send, creation of four kinds of vesting account at the burn address, unrelated traffic, block boundaries); in every distinct state the real EndBlock runs on a fork: spendable(burn)==0 afterwards, supply shrinks by exactly the spendable amount, no other balance changes, all registered crisis invariants hold, no panic.",
+      "Vesting schedules do not unlock within the explored horizon.", "E1+E2")
+claim("C08", MC, "explicit-state DFS over a combined 3-module graph; export/validate/InitChain/compare in every distinct state", "DESIGN.md §3 C08",
+      "Every distinct state of a combined AOL+DID+PNFT graph (from an empty and a populated base state): export twice byte-identical, custom ValidateGenesis passes, InitChain of a fresh app succeeds, aol/did stores byte-identical and the PNFT query matrix identical on the imported chain, and its own export of the custom sections is byte-identical.",
+      "Non-custom module sections are not compared.", "E1+E2")
